@@ -33,7 +33,8 @@ def specs(tier):
             [AUTHOR, '@robot foo', 1]]
     out = [
         spec('c10-commands-noq-D2', 'D2', [(PR1, 'development/4.3')],
-             depth=6 if tier == 'quick' else 8, comments=cmds,
+             depth=6 if tier == 'quick' else 8,
+             comments=cmds if tier != 'quick' else cmds[:2] + cmds[3:],
              eval_int_commits=tier != 'quick'),
         spec('c10-review-q-D2', 'D2', [(PR1, 'development/4.3')], queue=True,
              depth=5 if tier == 'quick' else 8,
